@@ -150,3 +150,9 @@ func NewUniverse(n int, thorough bool) *Universe {
 func (u *Universe) Reserved(bits string) bool {
 	return bits == u.Min || bits == u.Max || bits == u.Root
 }
+
+// bitsOfUser is where a user key lands in a tree of key length n.
+func bitsOfUser(user []byte, n int) string {
+	h := sha256.Sum256(user)
+	return BitsOf(h[:], n)
+}
